@@ -391,6 +391,12 @@ static bool can_remove_braces(Chunk *bopen)
          return(false);
       }
 
+      if (pc->Is(CT_IGNORED))
+      {
+         // Cannot remove braces that contain a disabled region: its statements are not seen
+         return(false);
+      }
+
       if (pc->IsNewline())
       {
          nl_count += pc->GetNlCount();
@@ -554,6 +560,13 @@ static void examine_brace(Chunk *bopen)
       {
          // Cannot remove braces that contain a preprocessor
          LOG_FMT(LBRDEL, "%s(%d):  PREPROC\n", __func__, __LINE__);
+         return;
+      }
+
+      if (pc->Is(CT_IGNORED))
+      {
+         // Cannot remove braces that contain a disabled region: its statements are not seen
+         LOG_FMT(LBRDEL, "%s(%d):  IGNORED\n", __func__, __LINE__);
          return;
       }
 
